@@ -15,9 +15,11 @@ META = {
                    'where the formula is derived from the call sites of addTransition reachable from init(); E-PATH over '
                    'Transformer.transform() for the basic-only filters; zonedb vs zonedbx recorded-line equality; E-GNF year '
                    'alignment of the three cache-fill helpers (era of the label year, latest rule before the instant the '
-                   'transition stands for, comparator read from findLatestPriorRule, effect of a deviation enumerated over the '
-                   'shipped tables; priorYearOfRule returns a year strictly before its argument on every path); the anchor rule '
-                   'is copied only from SAVE == 0 rules.',
+                   'transition stands for, effect of a deviation enumerated over the shipped tables); findLatestPriorRule '
+                   'interpreted (E-SEQ, typed, brokers and compareRulesBeforeYear / priorYearOfRule through their bodies) on '
+                   'abstract policies of 0..3 rules: which FROM years count as "before", and that the result maximises '
+                   '(min(TO, year-1), month); _get_anchor_rule interpreted on policies of two and three rules in every order '
+                   'with SAVE 0 and SAVE 1:00 rules carrying different letters.',
     'decided': 'the stated data preconditions of BasicZoneProcessor hold for every shipped basic zone and year; the basic '
                'cache never needs more than kMaxCacheEntries slots; the compiler applies the four basic-only filters on the '
                'basic path; names(zonedb) is a subset of names(zonedbx) with identical recorded era/rule lines and TZ version; '
